@@ -126,6 +126,9 @@ def _sf2(args):
     except Exception as e:
         import traceback
         logging.warn(e)
+        # release the other stripes: they would wait for us for ever
+        if barrier is not None:
+            barrier.abort()
         raise Exception("".join(traceback.format_exception(*sys.exc_info())))
 
 
